@@ -243,10 +243,6 @@ func (p *Parser) statement() (Statement, error) {
 
 		return &StatementIf{expr, body, elseBody}, nil
 	case While:
-		wasInLoop := p.inLoop
-		p.inLoop = true
-		defer func() { p.inLoop = wasInLoop }()
-
 		if err := p.consume(While); err != nil {
 			return nil, err
 		}
@@ -263,17 +259,13 @@ func (p *Parser) statement() (Statement, error) {
 			return nil, err
 		}
 
-		body, err := p.statement()
+		body, err := p.loopBody()
 		if err != nil {
 			return nil, err
 		}
 
 		return &StatementWhile{expr, body}, nil
 	case For:
-		wasInLoop := p.inLoop
-		p.inLoop = true
-		defer func() { p.inLoop = wasInLoop }()
-
 		// for (
 		if err := p.consume(For); err != nil {
 			return nil, err
@@ -309,7 +301,7 @@ func (p *Parser) statement() (Statement, error) {
 					return nil, err
 				}
 
-				body, err := p.statement()
+				body, err := p.loopBody()
 				if err != nil {
 					return nil, err
 				}
@@ -340,7 +332,7 @@ func (p *Parser) statement() (Statement, error) {
 			return nil, err
 		}
 
-		body, err := p.statement()
+		body, err := p.loopBody()
 		if err != nil {
 			return nil, err
 		}
@@ -381,6 +373,16 @@ func (p *Parser) statement() (Statement, error) {
 		}
 		return &StatementExpr{expr}, nil
 	}
+}
+
+// the body of a loop: the only place where break and continue are allowed.
+// (the loop's condition and the other clauses of its header are not: the
+// evaluator only catches break and continue raised by the body)
+func (p *Parser) loopBody() (Statement, error) {
+	wasInLoop := p.inLoop
+	p.inLoop = true
+	defer func() { p.inLoop = wasInLoop }()
+	return p.statement()
 }
 
 func (p *Parser) printStatement() (StatementPrint, error) {
